@@ -43,6 +43,9 @@ pub fn alphabet<'a, 'b>(frag: &str, goals: &'a [GoalCtx<'b>], max: usize) -> Vec
 pub struct HistGoal<'a> {
     pub text: &'a str,
     pub peeled: &'a Peeled,
+    /// root-cause discriminator appended to the site of violations on this goal
+    /// (e.g. "/growing" when the goal's proof search exceeds the reference model's caps)
+    pub tag: &'a str,
 }
 
 /// Breadth-first search over histories of `solve(g)`, g in `alpha`, on one
@@ -88,13 +91,18 @@ pub fn explore(
                 *local.entry("transitions".into()).or_insert(0) += 1;
                 let hist_text = || hist.iter().map(|&h| alpha[h].text.to_string()).collect::<Vec<_>>();
                 let input = || json!({"program": prog_text, "history": hist_text(), "goal": g.text, "solver": cfg.name()});
+                let returned = r.is_ok();
                 match decode_caught(chalk, g.peeled, r) {
                     Caught::Ok(ans) => {
                         if ans != expected[k] {
                             rep.violation(Violation {
                                 property: property.into(),
                                 kind: "answer-depends-on-history".into(),
-                                site: format!("{}/{}", cfg.short(), class),
+                                site: if super::c13::trivial_unique_vs_unknown(&ans, &expected[k]) {
+                                    format!("{}/trivial-unique-vs-unknown", cfg.short())
+                                } else {
+                                    format!("{}/{}{}", cfg.short(), class, g.tag)
+                                },
                                 what: format!(
                                     "{} after solving {:?}: `{}` -> {:?}, fresh solver -> {:?}",
                                     cfg.name(), hist_text(), g.text, ans, expected[k]
@@ -113,7 +121,7 @@ pub fn explore(
                     Caught::Budget => rep.violation(Violation {
                         property: property.into(),
                         kind: "runaway-after-history".into(),
-                        site: format!("{}/{}", cfg.short(), class),
+                        site: format!("{}/{}{}", cfg.short(), class, g.tag),
                         what: format!("{} after solving {:?}: `{}` exceeds the tick budget although it returns on a fresh solver", cfg.name(), hist_text(), g.text),
                         input: input(),
                     }),
@@ -131,7 +139,7 @@ pub fn explore(
                     }
                 }
                 let fp = solver.fingerprint();
-                if seen.insert(fp) {
+                if returned && seen.insert(fp) {
                     let mut h = hist.clone();
                     h.push(k);
                     next.push(h);
@@ -161,7 +169,7 @@ pub fn run_c10(rep: &Report) -> i32 {
     if !thorough {
         corpora.extend(f0x_corpora());
     }
-    let gamma = if thorough { 6 } else { 4 };
+    let gamma = if thorough { 5 } else { 4 };
     let cfgs = [SolverCfg::SLG, SolverCfg::REC, SolverCfg::REC_NOCACHE];
     for_each_program(rep, &corpora, |pc, goals| {
         let mut local: BTreeMap<String, u64> = BTreeMap::new();
@@ -207,7 +215,17 @@ pub fn run_c10(rep: &Report) -> i32 {
                     }
                 }
             }
-            let hg: Vec<HistGoal> = alpha.iter().map(|g| HistGoal { text: &g.text, peeled: &g.peeled }).collect();
+            // goals whose proof search exceeds REF's caps (growing types): answers near the size limit
+            let tags: Vec<&'static str> = alpha
+                .iter()
+                .zip(&fresh)
+                .map(|(g, f)| {
+                    let ac = crate::oracle::AnswerCheck { refm: &pc.refm, pa: &g.pa, peeled: &g.peeled, depth: 3, solver: cfg.short(), class: pc.class };
+                    let (_, info) = ac.check(f);
+                    if info.stats.capped { "/growing" } else { "" }
+                })
+                .collect();
+            let hg: Vec<HistGoal> = alpha.iter().zip(&tags).map(|(g, t)| HistGoal { text: &g.text, peeled: &g.peeled, tag: t }).collect();
             let (n, closed) = explore(rep, "C10", &mut local, &pc.chalk, &pc.text, &hg, &fresh, cfg, pc.class);
             if pc.pi % 400 == 0 && cfg.is_slg() {
                 rep.sample(json!({"program": pc.text, "alphabet": alpha.iter().map(|g| g.text.clone()).collect::<Vec<_>>(),
@@ -225,7 +243,7 @@ pub fn run_c10(rep: &Report) -> i32 {
         states,
         tr,
         nt,
-        "for every program of the (reduced in quick) C01 corpus and each of SLG / recursive / recursive-without-cache: breadth-first search over histories of solve(g), g in an alphabet of 4 (quick) / 6 (thorough) goals sharing subgoals; a state is the history (rebuilt by replay on a fresh solver), deduplicated by the solver fingerprint (tables+strands / cache entries), explored until no new fingerprint appears; on every transition the answer must equal the fresh-solver answer and the recursive solver must keep no stack/search-graph residue; non-trivial = searches that reach more than two distinct solver states",
+        "for every program of the (reduced in quick) C01 corpus and each of SLG / recursive / recursive-without-cache: breadth-first search over histories of solve(g), g in an alphabet of 4 (quick) / 5 (thorough) goals sharing subgoals; a state is the history (rebuilt by replay on a fresh solver), deduplicated by the solver fingerprint (tables+strands / cache entries), explored until no new fingerprint appears; on every transition the answer must equal the fresh-solver answer and the recursive solver must keep no stack/search-graph residue; non-trivial = searches that reach more than two distinct solver states",
         cut == 0,
         &[
             "fingerprint canonicalization drops only forest-clock stamps of suspended strands (always smaller than any later clock value)",
